@@ -319,12 +319,12 @@ FAMS = {
 }
 
 
-def multi(pid, tier, seed, fams, mcs, assumptions, rule, level="model_checking", extra=None):
+def multi(pid, tier, seed, fams, mcs, assumptions, rule, level="model_checking", extra=None, profile="release"):
     """One property decided over several families: every family's recorder is run and its traces are
     validated by the family's trace specification with this property's conjuncts switched on."""
     t0 = time.time()
     clean(pid)
-    vhbin = build_harness()
+    vhbin = build_harness(profile)
     mc = [tlc_mc(m, c, workers=6) for (m, c) in mcs]
     ev_total, st_total, runs_total, rej_all, samples = 0, 0, 0, [], []
     viol, hits = [], []
@@ -423,3 +423,41 @@ def C13(tier, seed):
            "Bloom dirty bit counts and frequent-items empty flags 4/5 are exercised by the C14 corpus only"], rule=
           "every source state (list, set, array x Hll4/6/8, with exceptions, out of order; compact theta states from random and crafted sketches) "
           "in every variant; after loading: full state comparison, further updates, union into an empty union, re-serialization")
+
+
+def bulk_stage(cmd, name, profile=None):
+    def stage(vhbin, pid, tier, seed):
+        b = build_harness(profile) if profile else vhbin
+        n = 4
+        rec = vh(b, cmd, {"out": work(pid, name), "shards": n, "seed": seed, "tier": tier}, timeout=7200)
+        return [(name, "Trace_Bulk", "CONSTANTS ", [work(pid, "%s.%d.ndjson" % (name, i)) for i in range(n)], rec["runs"], {})]
+    return stage
+
+
+def C17(tier, seed):
+    def stages(vhbin, pid, tier, seed):
+        return bulk_stage("ext-record", "ext")(vhbin, pid, tier, seed) + bulk_stage("ext-record", "extrel", "release")(vhbin, pid, tier, seed)
+    multi("C17", tier, seed, ["hll", "hllu", "hllv", "theta", "cpc", "cpcu", "fi", "cm", "bloom", "td"],
+          [("MC_Hll", "MC_Hll_A.cfg"), ("MC_Cpc", "MC_Cpc.cfg")], profile="dbg", extra=stages, assumptions=
+          ["every recorded history consists of operations whose documented preconditions hold (the recorders only call the API within its documented "
+           "ranges; TLC-generated behaviours are enabled only where the specification's action is); a panic is recorded as a Panic event, which no "
+           "action of any trace specification explains",
+           "all recorders run from a harness built with debug-assertions = on and overflow-checks = on (profile dbg, same optimisation level as release); "
+           "the extremes scenarios run in both profiles",
+           "the bulk scenarios at lg_k 21..26 are too large for TLC to track their state: they are validated as sequences of Bulk steps (scalars only)"],
+          rule="all family recorders (HLL, HLL union, HLL image variants, theta, CPC sketch and union, frequent items, Count-Min, Bloom, t-digest) rebuilt with "
+               "debug assertions and overflow checks; extremes: HLL lg_k 4 and 21 x 3 types with cur_min shifts under a live exception map, CPC lg_k 4/5 walks to "
+               "window offset 56, lg_k 21 (22, 26 thorough) to Sliding with serialization, theta lg_k 5 and 26 x 4 resize factors x sampling, t-digest k 10, 32768, "
+               "65535 with empty split lists, frequent items map 8, Bloom 1 bit, Count-Min 1x3 for all eight counter types incl. upper_bound")
+
+
+def C18(tier, seed):
+    multi("C18", tier, seed, ["hll", "theta", "fi", "cm", "bloom"],
+          [("MC_Hll", "MC_Hll_B.cfg"), ("MC_Theta", "MC_Theta.cfg")], extra=bulk_stage("size-record", "size"), assumptions=
+          ["checkpoints after every power-of-two prefix of streams of up to 2^18 items (2^22 thorough): distinct, repeated (5000-value domain) and "
+           "long-run ordered; between checkpoints the state is not tracked by TLC (Size events carry mode, counts and the image length)",
+           "the CPC clause is a count: per trace file at most 12 of at most 4000 checkpoints may exceed max_serialized_bytes (binomial(4000, 0.001) "
+           "tail < 1e-9), evaluated by the trace specification at the End event",
+           "HLL image size is also checked after every single update of the C02 workloads (ObsOK len = SerLen)"],
+          rule="size-record: HLL lg_k {4,7,8,10,12,(14)} x 3 types x 3 stream shapes, theta lg_k {5,8,12} with trims, CPC lg_k {4,8,10,11,12} x shapes x repeats, "
+               "frequent items maps {8,64,1024}, Bloom, Count-Min, t-digest k {10,100,500}; plus the per-update size conjuncts of the family traces")
